@@ -107,6 +107,7 @@ pub fn err_kind(e: &falcon::Error) -> &'static str {
         GraphVertexNotFound(_) => "EGraphVertex",
         GraphEdgeNotFound(_, _) => "EGraphEdge",
         Custom(_) => "ECustom",
+        ExecutorInvalidAddress => "EInvalidAddress",
         _ => "EOther",
     }
 }
